@@ -8,3 +8,9 @@ import PGV.Driver.C14
 import PGV.Model.LRU
 import PGV.Spec.LRU
 import PGV.Driver.C09
+import PGV.Model.Value
+import PGV.Model.Lang
+import PGV.Model.Rules
+import PGV.Model.Walker
+import PGV.Driver.Value
+import PGV.Driver.Walk
